@@ -1,0 +1,12 @@
+//go:build verif
+
+package apk
+
+// Wrappers for the verification harness of property C05 (build tag verif
+// only). They add no behaviour to the code under test.
+
+// VerifC05ResetProcessCaches forgets the process-wide memo of expanded packages
+// (globalApkCache), as a new process would start.
+func VerifC05ResetProcessCaches() {
+	globalApkCache = &apkCache{}
+}
